@@ -57,7 +57,7 @@ NSAMPLE = 6
 
 
 def budget(tier):
-    return 840 if tier == "quick" else 4000
+    return 2400 if tier == "quick" else 30000
 
 
 def gen(rng, i, tier):
